@@ -48,7 +48,7 @@ def _store_index(n):
     return None
 
 
-def run(ctx: Context):
+def run(ctx: Context, P: str = "C35"):
     idx = ctx.idx
     fn = idx.func(SET)
     cfg = fn.cfg()
@@ -59,7 +59,7 @@ def run(ctx: Context):
                      and any(l == "exc" for (_d, l) in cfg.succ[n.id])]
 
     # -- (a) journaling ----------------------------------------------------
-    with ctx.rule("C35.1", "R10", "set_hashes: every self[i]=v in the try region is followed by journal.add(i) "
+    with ctx.rule(P + ".1", "R10", "set_hashes: every self[i]=v in the try region is followed by journal.add(i) "
                   "before any explicit raise, loop back-edge or exit", expected=2) as r:
         for s in region_stores:
             ix = norm_plain(_store_index(s))
@@ -81,8 +81,29 @@ def run(ctx: Context):
                 r.violation(fn, fn.loc(st.ast), "store self[%s] is not journaled before %s: a later rejection "
                             "would leave the unvalidated hash in the tree" % (ix, w.brief()), w)
 
+        # converse: only indices stored by this call are journaled - a rollback must not erase hashes the
+        # tree already held (validated earlier, or the trusted root) when an offer repeats them
+        jadds = [n for n in cfg.stmt_nodes() if any(attr_path(c.func.value) == journal for c in calls_at(n, "add"))]
+        for jn in jadds:
+            c = [c for c in calls_at(jn, "add") if attr_path(c.func.value) == journal][0]
+            if len(c.args) != 1:
+                continue
+            jx = norm_plain(c.args[0])
+            r.site(fn, jn.ast, "journal add %s" % jx)
+
+            def stored(n, _jx=jx):
+                si = _store_index(n)
+                return si is not None and norm_plain(si) == _jx
+            names = names_in(c.args[0])
+            bad = find_path_avoiding(cfg, lambda n, _j=jn: n is _j, gate_node=stored,
+                                     kill=lambda n, _k=names: bool(_k & node_stores(n)))
+            for (t, w) in bad:
+                r.violation(fn, fn.loc(jn.ast), "index %s is scheduled for rollback on a path where this call did not store it "
+                            "(path: %s): a rejected offer that repeats an already known hash would erase that hash, so a "
+                            "rejection changes the tree's state" % (jx, w.brief()), w)
+
     # -- (b) handler -------------------------------------------------------
-    with ctx.rule("C35.2", "R10", "set_hashes: the handler catches every exception class explicitly raised in the "
+    with ctx.rule(P + ".2", "R10", "set_hashes: the handler catches every exception class explicitly raised in the "
                   "region, undoes all journaled stores and re-raises", expected=3) as r:
         hn = set(C._handler_names(handler.ast.type) or ["BaseException"])
         raised = set()
@@ -115,7 +136,7 @@ def run(ctx: Context):
                 r.violation(fn, fn.loc(n.ast), "store into the tree outside the transactional region")
 
     # -- (c) conflict check ------------------------------------------------
-    with ctx.rule("C35.3", "R1", "set_hashes: a node is overwritten only when empty; a known node that differs "
+    with ctx.rule(P + ".3", "R1", "set_hashes: a node is overwritten only when empty; a known node that differs "
                   "from the offered/derived value raises BadHashError", expected=2) as r:
         for s in region_stores:
             ixe = _store_index(s)
@@ -149,7 +170,7 @@ def run(ctx: Context):
                       "accepted: a conflicting hash would be silently ignored" % (ix, val))
 
     # -- (d) propagation ---------------------------------------------------
-    with ctx.rule("C35.4", "R1/R2", "set_hashes: upward propagation - sibling required, parent = pair_hash(sorted "
+    with ctx.rule(P + ".4", "R1/R2", "set_hashes: upward propagation - sibling required, parent = pair_hash(sorted "
                   "pair), unknown parent stored and enqueued one level up, only the root is skipped, bottom-up order",
                   expected=5) as r:
         # parent hash
@@ -265,14 +286,36 @@ def run(ctx: Context):
                 return bool(f) and f[0] == "==" and "0" in (f[1], f[2])
             for (t, w) in find_path_avoiding(cfg, lambda n, _c=cn: n is _c, gate_edge=is_root):
                 r.violation(fn, fn.loc(cn.ast), "a non-root node can be skipped without verification", w)
-        # bottom-up
-        lv = [n for n in cfg.nodes if n.kind == "iter" and _in_try_body(fn, n.ast) and contains_call(n.ast.iter, "range")]
-        oklv = any(contains_call(n.ast.iter, "reversed") for n in lv)
-        r.site(fn, lv[0].ast if lv else None, "level loop")
-        r.require(oklv, fn, fn.loc(lv[0].ast if lv else None), "levels are not visited bottom-up (reversed(range(..)))")
+        # every level >= 1 is processed, deepest first
+        lv = [n for n in cfg.nodes if n.kind == "iter" and _in_try_body(fn, n.ast) and contains_call(n.ast.iter, "range")
+              and any(calls_at(m, "pop") for (m, _s) in _reach(cfg, n) if m.kind == "stmt")]
+        if not lv:
+            raise AnchorVanished("set_hashes: the loop over tree levels was not found")
+        it = lv[0].ast.iter
+        r.site(fn, lv[0].ast, "level loop")
+        verdict = None     # None = cannot decide
+        if isinstance(it, ast.Call) and call_tail(it) == "reversed" and it.args and isinstance(it.args[0], ast.Call) \
+                and call_tail(it.args[0]) == "range":
+            ra = it.args[0].args
+            if len(ra) == 1:
+                verdict = True
+            elif len(ra) == 2 and isinstance(ra[0], ast.Constant) and isinstance(ra[0].value, int):
+                verdict = ra[0].value <= 1
+        elif isinstance(it, ast.Call) and call_tail(it) == "range" and len(it.args) == 3:
+            st = N(fn).poly(it.args[2]).const_value()
+            lo = N(fn).poly(it.args[1]).const_value()
+            if st is not None and lo is not None:
+                verdict = (st == -1 and lo <= 0)
+        elif isinstance(it, ast.Call) and call_tail(it) == "range":
+            verdict = False    # ascending: parents would be visited before the children that derive them
+        if verdict is None:
+            raise AnalysisError("set_hashes: cannot decide which tree levels the loop %s visits" % src(fn, it))
+        r.require(verdict, fn, fn.loc(lv[0].ast), "the level loop %s does not visit every level below the root deepest-first: "
+                  "hashes of a skipped level (e.g. the root's children) are stored without being checked against "
+                  "their parent" % src(fn, it))
 
     # -- (e) index algebra -------------------------------------------------
-    with ctx.rule("C35.5", "R6", "CompleteBinaryTreeMixin: parent=(i-1)//2, lchild=2i+1, rchild=2i+2, sibling is the "
+    with ctx.rule(P + ".5", "R6", "CompleteBinaryTreeMixin: parent=(i-1)//2, lchild=2i+1, rchild=2i+2, sibling is the "
                   "other child of parent, needed_for walks sibling->parent to the root", expected=5) as r:
         mix = MOD + ":CompleteBinaryTreeMixin"
         exp = {"parent": "(i - 1) // 2", "lchild": "2 * i + 1", "rchild": "2 * i + 2"}
@@ -332,7 +375,7 @@ def run(ctx: Context):
         r.require(ok, f, f.loc(), "needed_for does not walk sibling(here) / here=parent(here) from the node until the root")
 
     # -- (f) HashTree construction and leaf merging -----------------------
-    with ctx.rule("C35.6", "R1", "HashTree.__init__ pads with empty_leaf_hash(i) and pairs (2i, 2i+1); set_hashes "
+    with ctx.rule(P + ".6", "R1", "HashTree.__init__ pads with empty_leaf_hash(i) and pairs (2i, 2i+1); set_hashes "
                   "merges leaves into the checked map at first_leaf_num + leafnum", expected=3) as r:
         f = idx.func(MOD + ":HashTree.__init__")
         r.site(f, None)
@@ -375,7 +418,7 @@ def run(ctx: Context):
             r.require(bool(main), fn, fn.loc(merged[0].ast), "the merged map %s (hashes + leaves) is not the one validated" % tgt)
 
     # -- (g) writer / verifier shape agreement ------------------------------
-    with ctx.rule("C35.7", "R6", "HashTree.__init__ and IncompleteHashTree.__init__ agree on the tree shape (first_leaf_num, "
+    with ctx.rule(P + ".7", "R6", "HashTree.__init__ and IncompleteHashTree.__init__ agree on the tree shape (first_leaf_num, "
                   "row halving, root-first flattening); needed_hashes = needed_for(first_leaf_num+leafnum) minus known nodes",
                   expected=4) as r:
         shapes = {}
